@@ -15,9 +15,9 @@ ID = "C16"
 LEVEL = "exploration"
 RULE = (
     "Hypothesis draws convex problems (kappa<=100) and the package's benchmark functions with narrow boxes of every kind (incl. lb==ub), starts on faces/vertices, and runs them with "
-    "jac in {None, '2-point', '3-point', 'cs' (analytic families)}, eps in {1e-8,1e-6} or a per-variable array, finite_diff_rel_step in {None,1e-7} or a per-variable array; half of the cases are preceded by another "
+    "jac in {None, '2-point', '3-point', 'cs'}, eps in {1e-8,1e-6} or a per-variable array, finite_diff_rel_step in {None,1e-7} or a per-variable array; half of the cases are preceded by another "
     "run of another size with another scheme and coarse or per-variable steps. Oracle: no exception escapes; every stencil point inside the box; every differencing request of the run evaluates exactly the stencil points (projected onto the box) "
-    "and serves exactly the gradient that scipy.optimize's approx_derivative gives for the *requested* options with f0 = f(x) (differential); "
+    "and serves exactly the gradient that scipy.optimize's approx_derivative gives for the *requested* options with f0 = f(x) (differential), and for 'cs' agrees with the exact gradient to 1e-4; "
     "nfev equals the number of objective calls logged (stencil points included); on the convex families the final value matches the exact-gradient run to 1e-6*(1+|f|). "
     "non-trivial = some iterate of the run has a component on a bound and >=1 bound is active at the result; distinct = distinct (problem, mode, options)"
 )
@@ -106,6 +106,16 @@ def check_stencils(prob, mode, spec, fdlog, stats):
         gout = np.where(fixed, 0.0, e["out"])
         ok = np.array_equal(np.isnan(gref), np.isnan(gout)) and float(np.nanmax(np.abs(gref - gout), initial=0.0)) <= 1e-12 * (1.0 + float(np.nanmax(np.abs(gref), initial=0.0)))
         require(ok, "gradient-is-the-requested-scheme", f"jac={mode!r}: differenced gradient at x={x0.tolist()} is {gout.tolist()} but the requested scheme gives {gref.tolist()}")
+        if mode == "cs" and not (prob.obj.name == "bench:ackley" and float(np.linalg.norm(x0)) < 0.15):
+            # "agree with exact gradients": the complex step has no subtractive cancellation, so it reproduces the exact
+            # gradient to rounding whatever the step (the real-valued schemes carry eps*|f|/h of noise and are judged
+            # through the optimal value only); Ackley is not differentiable at the origin
+            gex = np.where(fixed, 0.0, np.asarray(prob.obj.g(x0), dtype=float))
+            if np.all(np.isfinite(gex)) and np.all(np.isfinite(gout)):
+                err = float(np.max(np.abs(gout - gex)))
+                tol_g = 1e-4 * (1.0 + float(np.max(np.abs(gex))))
+                require(err <= tol_g, "differenced-gradient-agrees-with-exact-gradient",
+                        f"jac={mode!r}: at x={x0.tolist()} the differenced gradient {gout.tolist()} is {err:.3e} away from the exact gradient {gex.tolist()}")
         judged += 1
     if stats is not None:
         stats.bump("differencing-requests-compared-with-scipy", judged)
@@ -186,7 +196,7 @@ def check(spec, stats=None):
 @st.composite
 def strategy(draw):
     mode = draw(st.sampled_from([None, "2-point", "3-point", "cs"]))
-    fams = list(CONVEX_FAMILIES) if mode == "cs" else list(CONVEX_FAMILIES) * 2 + ["bench"]
+    fams = list(CONVEX_FAMILIES) * 2 + ["bench"]
     p = draw(problem_spec(families=fams, n_max=8, narrow=True, kappa_max_exp=2.0, box_mode=draw(st.sampled_from(["mixed", "boxed", "boxed"]))))
     n = p["obj"]["n"]
     out = {"problem": p, "jac": mode, "maxcor": draw(st.integers(1, 10)), "eps": draw(st.sampled_from([1e-8, 1e-6])), "rel": draw(st.sampled_from([None, 1e-7]))}
